@@ -12,7 +12,7 @@ MANIFEST = {
             "int/slice indexing with CPython's slice adjustment, len/ones/zeros) and of electrical_signal.__gt__/__lt__, unbounded "
             "(every length, every operand, every slice triple, every ordered field): the constructor accepts exactly 0-D/1-D data "
             "whose elements all equal 0 or 1 and stores their bits; every operator result is again a valid sequence; "
-            "len(a+b)=len a+len b, (a+b)[:len a]=a, b+a reflected, ~~a=a, (a+b)+c=a+(b+c), ~(a+b)=~a+~b, ones/zeros/len additive over +, ones+zeros=len, ones(~a)=zeros(a), a[:]=a, slice length and "
+            "len(a+b)=len a+len b, (a+b)[:len a]=a, b+a reflected, ~~a=a, (a+b)+c=a+(b+c), ~(a+b)=~a+~b, ones/zeros/len additive over +, (a+b)[i] read from a or b, ones+zeros=len, ones(~a)=zeros(a), a[:]=a, slice length and "
             "element formula; comparisons give a valid sequence of the signal's length, equal to the element-wise comparison of "
             "|signal+noise| with |threshold| and, for non-negative reals, of signal+noise with the threshold.  Tie: exact "
             "differential run of the compiled model against the real classes (all bit strings <= 8/12 in 5+ container forms, all "
